@@ -1,3 +1,4 @@
 #!/bin/bash
-# confirms every delivered seed that has not been confirmed yet (sequentially)
+# confirms every delivered seed that has not been confirmed yet (sequentially; concurrent invocations wait for each other)
+exec 9>/var/tmp/seed_queue.lock; flock 9
 for d in /tmp/seed-*-out; do x=$(basename $d | sed 's/seed-//; s/-out//'); [ -f $d/meta.json ] && [ -f $d/patch.diff ] && [ -f $d/demo.cpp ] || continue; [ -f /verif/seeded/$x/meta.json ] && continue; /verif/scripts/seed_confirm.py $x 2>&1 | tail -1; done
